@@ -6,7 +6,7 @@ before, minus the nodes the operation discards, plus the nodes it creates - same
 import json
 import uuid
 
-from vlib import anytrees, emlkit, snapshot, treegen
+from vlib import anytrees, emlkit, nodegen, snapshot, treegen
 from vlib.emlkit import Node, mvalidate
 from metapype.eml import references
 from metapype.model import metapype_io
@@ -173,14 +173,20 @@ def one_history(ctx, gen, hno):
         if live_count() > 200:
             op = "delete"
         try:
-            if op == "create":
+            if op == "create" and rng.random() < 0.15:
+                # a wide tree (dozens of children, many with subtrees): created node by node, every node registered
+                n = nodegen.wide_tree(rng)
+                history.append(["create_wide", len(n.children)])
+                mon.check(op, before, snapshot.walk(n), [], wit)
+                held.append(n)
+            elif op == "create":
                 n = Node(rng.choice(["a", "b", "dataset", "title"]), content=rng.choice([None, "x"]))
                 history.append(["create", n.name])
                 mon.check(op, before, [n], [], wit)
                 held.append(n)
             elif op == "copy" and held:
                 r = rng.choice(held)
-                src = rng.choice(snapshot.walk(r))
+                src = r if rng.random() < 0.3 else rng.choice(snapshot.walk(r))
                 history.append(["copy", src.name, len(snapshot.walk(src))])
                 c = src.copy()
                 mon.check(op, before, snapshot.walk(c), [], wit)
